@@ -530,7 +530,7 @@ def exec_single(case):
 SDMF_HDR = ">BQ32s16sBBQQLLLLQQ"
 MDMF_HDR = ">BQ32sBBQQQQQQQQQQ"
 MUT_KINDS = ["flip", "seq+1", "seq-1", "root", "salt", "k", "n", "segsize", "datalen", "offset", "vkey", "sig", "chain", "bht",
-             "data", "privkey", "truncate", "replay", "foreign", "splice", "resign", "resign+key", "delete"]
+             "data", "privkey", "truncate", "replay", "foreign", "splice", "resign", "resign+key", "delete", "chainnum", "body-old", "body-foreign"]
 
 
 def parse_mut_share(data):
@@ -626,6 +626,32 @@ def mutate_mut_share(raw, kind, p1, p2, ctx):
             if od and len(od) >= p["signed_len"]:
                 # an older version's signed prefix (and signature region if the layout agrees) on the newest data
                 sb[:p["signed_len"]] = od[:p["signed_len"]]
+    elif kind == "chainnum":
+        # the node number of one share-hash-chain entry is rewritten (a chain that names the root, a leaf, its own leaf...)
+        a, b = p["regions"]["chain"]
+        nent = (min(b, len(sb)) - a) // 34
+        if nent > 0:
+            e = a + 34 * (p1 % nent)
+            cur = int.from_bytes(sb[e:e + 2], "big")
+            new = [0, 0, 0, 1, 2, cur ^ 1, cur + 1, 0xffff][p2 % 8]
+            if new == cur:
+                new = 0
+            sb[e:e + 2] = new.to_bytes(2, "big")
+    elif kind in ("body-old", "body-foreign"):
+        # the genuine signed prefix, signature and verification key of this share on the body (share hash chain, block
+        # hash tree, blocks, salts) of the same-numbered share of an older version / of another file: k such shares agree
+        # with one another all the way up to a share-hash root -- only not the signed one
+        other = ctx.get("replay" if kind == "body-old" else "foreign")
+        od = parse_mutable_container(other) if other is not None else None
+        q = parse_mut_share(od) if od else None
+        if q and q["fmt"] == p["fmt"]:
+            nb = bytearray(od)
+            nb[:p["signed_len"]] = sb[:p["signed_len"]]
+            for r_ in ("sig", "vkey"):
+                (a, b), (c, d_) = p["regions"][r_], q["regions"][r_]
+                if b - a == d_ - c:
+                    nb[c:d_] = sb[a:b]
+            sb = nb
     elif kind in ("resign", "resign+key"):
         from allmydata.crypto import rsa as rsa_mod
         pool = gridsim.rsa_pool()
@@ -677,6 +703,27 @@ def gen_versions(seed, tier, focus):
             p1, p2, oldv = ch.randrange(F, "co-p1", 1 << 30), ch.randrange(F, "co-p2", 1 << 30), ch.randrange(F, "co-oldv", 8)
             keep = set(ch.sample(F, "co-keep", range(cfg["n"]), ch.randint(F, "co-nkeep", 0, max(0, cfg["n"] - cfg["k"]))))
             muts = muts[:ch.randint(F, "co-others", 0, 2)] + [[-1, sh, kind, p1, p2, oldv] for sh in range(cfg["n"]) if sh not in keep]
+        if ch.chance(F, "grafted", 0.2):
+            # grafted bodies: the lowest share numbers (the ones a reader tries first) carry a share hash chain whose
+            # entries are renumbered, the next ones the body of another version / another file under the genuine signed
+            # prefix, on every server that holds them; the rest stay genuine
+            nlead = ch.pick(F, "gr-nlead", [0, 1, 1, 1, 2])
+            nbody = ch.randint(F, "gr-nbody", max(1, cfg["k"] - 1), cfg["n"])
+            donor = ch.pick(F, "gr-donor", ["body-old", "body-old", "body-foreign"])
+            oldv = ch.randrange(F, "gr-oldv", 8)
+            lead_p1, lead_p2 = ch.pick(F, "gr-entry", [0, 1, 2, 3, 1 << 20]), ch.randrange(F, "gr-num", 8)
+            if ch.chance(F, "gr-last-entry", 0.5):
+                lead_p1 = -1
+            muts = muts[:ch.randint(F, "gr-others", 0, 1)]
+            for sh in range(cfg["n"]):
+                if sh < nlead:
+                    muts.append([-1, sh, "chainnum", lead_p1, lead_p2, oldv])
+                elif sh < nlead + nbody:
+                    muts.append([-1, sh, donor, 0, 0, oldv])
+            if ch.chance(F, "gr-same-size", 0.7) and len(ops) >= 2:
+                for o_ in ops:
+                    o_[1] = ops[-1][1]
+            cfg["foreign_size"] = ops[-1][1] if ch.chance(F, "gr-foreign-same-size", 0.7) else None
     else:
         # stale shares of older versions left / replayed on chosen servers
         for j in range(ch.randint(F, "nstale", 0, cfg["n"] + 2)):
@@ -811,8 +858,9 @@ def exec_versions(case):
         reads = [op for op in case["ops"] if op[0] == "read"]
         # a second, unrelated mutable file for 'foreign' shares
         foreign_raw = {}
-        if any(m[2] == "foreign" for m in case.get("muts", [])):
-            st, fn = run(w.create_mutable_file(MutableData(b"foreign file contents " * 5), version=ver))
+        if any(m[2] in ("foreign", "body-foreign") for m in case.get("muts", [])):
+            fsize = cfg.get("foreign_size")
+            st, fn = run(w.create_mutable_file(MutableData(b"foreign file contents " * 5 if not fsize else pat_bytes(7, fsize)), version=ver))
             if st == "ok":
                 fsi = si_of_cap(fn.get_uri())
                 for s in g.servers:
